@@ -178,8 +178,20 @@ def _O():
     return operators
 
 
+# hostile storage layouts for every leaf tensor handed to a constructor (C13): None | "transposed" | "slice" | "expanded"
+LAYOUT = [None]
+
+
 def _cast(t, spec):
-    return t.to(DT[spec["dtype"]]) if t.dtype.is_floating_point else t
+    t = t.to(DT[spec["dtype"]]) if t.dtype.is_floating_point else t
+    how = LAYOUT[0]
+    if how == "expanded":
+        if t.dim() >= 3 and t.shape[0] > 1:
+            return t[:1].expand_as(t)  # all batch members share one member's storage (stride 0)
+        return t
+    if how in ("transposed", "slice"):
+        return layout(t, how, None)
+    return t
 
 
 # ------------------------------------------------------------------ leaf classes
